@@ -66,9 +66,9 @@ def symmetric (owner : Name) (a : Attr) : Bool := a.isSet && a.target == some ow
 structure TName (d : Dialect) where
   n : Name
   src : Src
-  ok : src = .norm → n.length ≤ maxNameLen d
+  ok : src = .norm → NormOk d n
 
-def TName.norm (d : Dialect) (x : Name) : TName d := ⟨normalizeName d x, .norm, fun _ => normalizeName_length d x⟩
+def TName.norm (d : Dialect) (x : Name) : TName d := ⟨normalizeName d x, .norm, fun _ => normalizeName_ok d x⟩
 def TName.explicit {d : Dialect} (x : Name) : TName d := ⟨x, .explicit, fun h => by cases h⟩
 def TName.suffixed {d : Dialect} (x : Name) : TName d := ⟨x, .suffixed, fun h => by cases h⟩
 instance {d} : Inhabited (TName d) := ⟨TName.explicit []⟩
